@@ -317,6 +317,16 @@ func runC16(c *Ctx) error {
 		k.spec(err == nil && out == mm, "MeteringMode.UnmarshalJSON", string(b), fmt.Sprint(v), fmt.Sprint(out, err), "json-roundtrip")
 		c.Count("mmjson"+fmt.Sprint(v), true)
 	}
+	// MeteringMode JSON, every value of the type: what MarshalJSON writes, UnmarshalJSON reads back (Marshal(Unmarshal(Marshal(v))) == Marshal(v))
+	for v := int64(0); v < 65536; v++ {
+		mm := meta.MeteringMode(v)
+		b, _ := mm.MarshalJSON()
+		var out meta.MeteringMode
+		err := out.UnmarshalJSON(b)
+		b2, _ := out.MarshalJSON()
+		k.spec(bytes.Equal(b, b2), "MeteringMode.UnmarshalJSON", string(b), string(b), fmt.Sprint(string(b2), " ", err), "json-marshal-idempotent")
+	}
+	c.Count("mmjson-all", true)
 	// ImageType: all 256 values, text form
 	for v := int64(0); v < 256; v++ {
 		v := v
